@@ -9,8 +9,10 @@ use serde_json::{json, Value};
 mod ops;
 #[cfg(feature = "common")]
 mod ops_common;
+#[cfg(feature = "stateres")]
+mod ops_stateres;
 
-fn hex(s: &str) -> Vec<u8> {
+pub fn hex(s: &str) -> Vec<u8> {
     (0..s.len() / 2).map(|i| u8::from_str_radix(&s[2 * i..2 * i + 2], 16).unwrap()).collect()
 }
 
